@@ -152,11 +152,16 @@ pub fn matches_known(k: &Known, prop: &str, v: &Violation) -> bool {
     true
 }
 
+/// where evidence and replays go (default /verif; the self-test uses a scratch directory)
+fn out_dir() -> String {
+    std::env::var("MAYVERIF_OUT").unwrap_or_else(|_| "/verif".to_string())
+}
+
 fn write_replay(prop: &str, sc: &Scenario, v: &Violation) -> String {
-    let _ = std::fs::create_dir_all("/verif/replays");
+    let _ = std::fs::create_dir_all(format!("{}/replays", out_dir()));
     let h = fnv64(&format!("{}{:?}{}", v.scenario, v.devs, v.clause));
     let safe: String = v.scenario.chars().map(|c| if c.is_ascii_alphanumeric() || c == '_' || c == '-' { c } else { '_' }).collect();
-    let path = format!("/verif/replays/{}-{}-{:08x}.json", prop, safe, h as u32);
+    let path = format!("{}/replays/{}-{}-{:08x}.json", out_dir(), prop, safe, h as u32);
     let j = json!({
         "property": prop, "scenario": v.scenario, "cfg": sc.cfg_json(),
         "deviations": v.devs.iter().map(|(i, a)| json!([i, a])).collect::<Vec<_>>(),
@@ -292,8 +297,8 @@ pub fn finish(prop: &str, tier: &str, seed: u64, scs: &[Scenario], results: Vec<
         "wall_s": (wall * 100.0).round() / 100.0,
         "violations": n_viol,
     });
-    let _ = std::fs::create_dir_all("/verif/evidence");
-    let path = format!("/verif/evidence/{}.json", prop);
+    let _ = std::fs::create_dir_all(format!("{}/evidence", out_dir()));
+    let path = format!("{}/evidence/{}.json", out_dir(), prop);
     std::fs::write(&path, serde_json::to_vec_pretty(&ev).unwrap()).unwrap();
     println!(
         "{} {}: scenarios={} executions={} states={} transitions={} distinct_signatures={} outcomes={} bound_completed={}..{} exhaustive={} wall={:.1}s",
